@@ -242,7 +242,8 @@ def build(ctx):
         ctx.unit(f"merge-bookkeeping[{mname}]", lambda mname=mname: unit_merge(ctx, mname, "bookkeeping"))
     ctx.unit("new_combination_score", lambda: unit_combination_score(ctx))
     # the candidate list the merge matcher walks through: its contract is discharged on the real scorer (C03's unit), regenerated here
-    include_stage(ctx, "C03", only=lambda mod, sub: [sub.unit(f"scorer[{m}]", lambda m=m: mod.unit_scorer(sub, m)) for m in MATCH_METRICS])
+    include_stage(ctx, "C03", only=lambda mod, sub: [sub.unit(f"scorer[{m}]", lambda m=m: mod.unit_scorer(sub, m)) for m in MATCH_METRICS]
+                  + [sub.unit("score_beats_threshold", lambda: mod.unit_beats(sub))])  # "meets the threshold" is exact, in the metric's direction
     ctx.add_bounded("c14-enum", "c14.bounded")
     ctx.add_bounded("c14-fn-enum", "c14.bounded_fn")
 
